@@ -81,7 +81,7 @@ class IOWorld(Machine):
                        "float_image", "uint8_image_roundtrip", "import_export_reimport", "nan_landmark", "manager_ge2_groups",
                        "unicode_label", "spelling_0", "spelling_1", "spelling_2", "spelling_3", "spelling_4", "spelling_5",
                        "clean_path_read_back_later", "path_reduce_restored", "pts_roundtrip", "empty_edge_set",
-                       "pts_large_coordinates", "masked_image_export", "explicit_extension_kwarg")
+                       "pts_large_coordinates", "masked_image_export", "explicit_extension_kwarg", "empty_preexisting_file")
 
     @classmethod
     def swarm(cls, rng, tier):
@@ -101,6 +101,7 @@ class IOWorld(Machine):
         op = {"op": k, "stem": rng.randrange(4), "dir": rng.choice([0, 0, 1]), "spell": rng.randrange(6),
               "ow": rng.choice([0, 0, 1]), "seed": rng.getrandbits(32), "kind": rng.randrange(16),
               "ext": rng.randrange(7), "proto": rng.choice([2, 2, 3, 4, 5])}
+        op["again"] = int(cfg["kind"] == "faulty" and rng.random() < 0.3)   # retry the previous export's target
         if cfg["kind"] == "faulty" and k.startswith(("export", "import", "roundtrip")) and rng.random() < 0.6:
             op.update(fk=rng.randrange(6), fn=rng.choice([0, 0, 1, 2, 3, 5, 8, 13, 21]), fe=rng.randrange(4),
                       keep=rng.choice([0, 1, 7, 64]))
@@ -150,6 +151,9 @@ class IOWorld(Machine):
         self.ff.install()
         self.model = {}   # relpath -> ("clean", kind, snapshot) | ("foreign",) | ("dirty",)
         self.reduce0 = Path.__reduce__
+        import PIL.ImageFile as _IF
+        import PIL.Image as _PI
+        self.pil0 = (_IF.LOAD_TRUNCATED_IMAGES, _PI.MAX_IMAGE_PIXELS)
         import sys
         self._hook = sys.unraisablehook
         sys.unraisablehook = lambda *a: None   # finalisers of half-built gzip objects complain about closed files
@@ -160,6 +164,10 @@ class IOWorld(Machine):
     def teardown(self):
         import sys
         sys.unraisablehook = self._hook
+        try:
+            self.fs.finalise_zombies()
+        except Exception:
+            pass
         self.ff.uninstall()
         self.fs.uninstall()
         try:
@@ -246,8 +254,9 @@ class IOWorld(Machine):
             return PointUndirectedGraph.init_from_edges(g.uniform(0, 9, size=(max(n, 2), 2)), np.zeros((0, 2), dtype=int))
         if k == "manager":
             mgr = LandmarkManager()
+            kinds = [int(v) for v in g.permutation([0, 3, 8, 4, 7, 8])]
             for j, nm in enumerate(["zz", "left eye", "Ünï", "a"][: int(g.randint(2, 5))]):
-                mgr[nm] = self.lm_object([0, 3, 8, 4, 7][j % 5], seed + j + 1, force2d=True)
+                mgr[nm] = self.lm_object(kinds[j], seed + j + 1, force2d=True)
             self.ctx.probe("manager_ge2_groups")
             return mgr
         if k == "dict":
@@ -357,8 +366,28 @@ class IOWorld(Machine):
     # ------------------------------------------------------------------ step
     def step(self, op):
         ctx = self.ctx
+        had_zombies = bool(self.fs.zombies)
+        if op.get("again") and getattr(self, "_last_export", None) and op["op"] in ("export_lm", "export_pickle", "export_image"):
+            # "try again": the same exporter, the same path, overwriting - right after the previous (possibly failed) export
+            op = dict(op, ow=1, **self._last_export[1]) if self._last_export[0] == op["op"] else op
+            ctx.probe("export_retried_on_same_path")
+        if op["op"] in ("export_lm", "export_pickle", "export_image"):
+            self._last_export = (op["op"], {"stem": op["stem"], "dir": op["dir"], "ext": op["ext"]})
         before = self.listing()
         touched = getattr(self, "_op_" + op["op"])(op, before)
+        if had_zombies:
+            # the handles leaked by an EARLIER operation are finalised now, i.e. after this operation was
+            # acknowledged; what was acknowledged as clean must still read back
+            hit = self.fs.finalise_zombies()
+            if hit:
+                ctx.probe("leaked_handle_finalised_later")
+                ctx.fault("late_finalisation_of_leaked_handle")
+                for rel in sorted(set(hit)):
+                    m = self.model.get(rel)
+                    if m and m[0] == "clean":
+                        chk = {"ljson": self._check_lm, "pts": self._check_lm, "pkl": self._check_pickle,
+                               "pklgz": self._check_pickle, "img": self._check_image}[m[1]]
+                        chk(rel, m[2], "after the late finalisation of a leaked handle,")
         after = self.listing()
         touched = set(touched or ())
         for rel in sorted(set(before) | set(after)):
@@ -368,6 +397,11 @@ class IOWorld(Machine):
                         lambda: "%s on %r changed %r" % (op["op"], sorted(touched), rel))
         ctx.require(Path.__reduce__ is self.reduce0, "path_reduce_restored", op["op"],
                     "Path.__reduce__ left monkeypatched after " + op["op"])
+        import PIL.ImageFile as _IF
+        import PIL.Image as _PI
+        now = (_IF.LOAD_TRUNCATED_IMAGES, _PI.MAX_IMAGE_PIXELS)
+        ctx.require(now == self.pil0, "process_global_state", "third_party_configuration_changed_by_" + op["op"],
+                    lambda: "PIL (LOAD_TRUNCATED_IMAGES, MAX_IMAGE_PIXELS) changed from %r to %r" % (self.pil0, now))
         # model vs disk
         for rel in sorted(after):
             if rel not in self.model:
@@ -663,7 +697,10 @@ class IOWorld(Machine):
         rel = self.relname(op, ext)
         g = rs(op["seed"])
         with self.fs._orig_open(os.path.join(self.root, rel), "wb") as f:
-            f.write(bytes(g.randint(0, 256, size=int(g.randint(0, 4000))).astype(np.uint8)))
+            nbytes = 0 if op["seed"] % 4 == 0 else int(g.randint(1, 4000))   # also empty files (touch, failed export)
+            if nbytes == 0:
+                self.ctx.probe("empty_preexisting_file")
+            f.write(bytes(g.randint(0, 256, size=nbytes).astype(np.uint8)))
         self.model[rel] = ("foreign",)
         return [rel]
 
